@@ -44,23 +44,27 @@ class Sched:
         self.have_syms = all(k in a for k in ("threadcount_mutex", "thd_mutex", "threadcount_cond"))
         self.runs = 0
 
-    def run(self, args, hosts, seed=1, spur=0, sigs=None, replay=None, pspur=10, ptick=5, timeout=20, env=None, nofile=None):
+    def run(self, args, hosts, seed=1, spur=0, sigs=None, replay=None, pspur=10, ptick=5, timeout=20, env=None, nofile=None, pb=None):
         """hosts: list of (name, connect 'o'|'r'|'h', out_items, err_items, destroy_rc); returns Run"""
         self.runs += 1
-        sc = os.path.join(self.dir, "script-%d.txt" % os.getpid())
+        import threading
+        uid = "%d-%d" % (os.getpid(), threading.get_ident())
+        sc = os.path.join(self.dir, "script-%s.txt" % uid)
         with open(sc, "w") as f:
             for name, c, o, e, drc in hosts:
                 f.write("%s %s %s %s %d\n" % (name, c, o or "-", e or "-", drc))
-        trf = os.path.join(self.dir, "trace-%d.txt" % os.getpid())
+        trf = os.path.join(self.dir, "trace-%s.txt" % uid)
         e = dict(os.environ, SCHED_ADDRS=self.addrs, SCHED_TRACE=trf, SIM_SCRIPT=sc, SCHED_SEED=str(seed), SCHED_SPUR=str(spur),
                  SCHED_PSPUR=str(pspur), SCHED_PTICK=str(ptick), ASAN_OPTIONS="detect_leaks=0")
         e.pop("WCOLL", None)
         if sigs:
             e["SCHED_SIGS"] = sigs
         if replay is not None:
-            rp = os.path.join(self.dir, "replay-%d.txt" % os.getpid())
+            rp = os.path.join(self.dir, "replay-%s.txt" % uid)
             open(rp, "w").write("\n".join(str(x) for x in replay) + "\n")
             e["SCHED_REPLAY"] = rp
+        if pb is not None:
+            e["SCHED_PB"] = ",".join("%d@%d" % (k, c) for k, c in pb) or "0@0"
         if env:
             e.update(env)
         try:
@@ -89,6 +93,7 @@ class Run:
         self.choices = []         # the schedule: action codes, for replay
         self.deadlock = False
         self.steplimit = False
+        self.pb_oob = False
         self.exit_by = None
         self.exit = None
         self.peak = None
@@ -111,6 +116,8 @@ class Run:
                 self.deadlock = True
             elif k == "STEPLIMIT":
                 self.steplimit = True
+            elif k == "PB-OOB":
+                self.pb_oob = True
             elif k == "EXIT":
                 self.exit = int(f[3])
                 self.exit_by = f[2]
@@ -214,3 +221,48 @@ class Run:
     def summary(self):
         return {"args": self.args, "seed": self.seed, "spur": self.spur, "sigs": self.sigs, "exit": self.exit, "code": self.code,
                 "peak": self.peak, "deadlock": self.deadlock, "steps": len(self.choices)}
+
+
+def explore_pb(eng, args, hosts, depth, max_runs=200000, workers=None, **kw):
+    """Exhaustive exploration of the schedules with at most `depth` deviations from the scheduler's base policy
+    (run the last thread while it can move, else the lowest-numbered one, clock ticks only when nothing else can):
+    at every choice point of every explored run every other legal action (another thread, a spurious wake-up, a
+    clock tick, a pending signal) is tried.  Yields Run objects (duplicates of the parent schedule are skipped)."""
+    import concurrent.futures as cf
+    workers = workers or min(16, (os.cpu_count() or 4))
+    out = []
+    base = eng.run(args, hosts, pb=[], **kw)
+    out.append(base)
+    frontier = [([], base)]
+    total = 1
+    with cf.ThreadPoolExecutor(workers) as ex:
+        for level in range(depth):
+            nxt = []
+
+            def children(item):
+                prefix, parent = item
+                res = []
+                start = prefix[-1][0] + 1 if prefix else 1
+                for k in range(start, len(parent.choices) + 1):
+                    c = 0
+                    while True:
+                        ru = eng.run(args, hosts, pb=prefix + [(k, c)], **kw)
+                        if ru.pb_oob:
+                            break
+                        if ru.choices != parent.choices:
+                            res.append((prefix + [(k, c)], ru))
+                        c += 1
+                        if c > 12:
+                            break
+                return res
+            for res in ex.map(children, frontier):
+                for item in res:
+                    out.append(item[1])
+                    nxt.append(item)
+                    total += 1
+                if total >= max_runs:
+                    break
+            frontier = nxt
+            if total >= max_runs:
+                break
+    return out
